@@ -114,6 +114,40 @@ def build(harness, flavour="c", extra_defs=(), out=None, harness_src=None):
     return vbuild.build(harness, flavour, out=out, repo=REPO, extra_defs=extra_defs, harness_src=harness_src)
 
 
+def kdefs(k):
+    """build the library with LONG_WAIT_THRESHOLD = k through the guarded hook in internal/common.h"""
+    return ("-DNSYNC_VERIF", "-DNSYNC_VERIF_LONG_WAIT_THRESHOLD=%d" % k)
+
+
+def replay_target(path, default="h_mu"):
+    """the harness (and its environment) a schedule file was written for: tokens on its first T line"""
+    head = ""
+    try:
+        with open(path) as f:
+            for line in f:
+                if line.startswith("T "):
+                    head = line
+                    break
+    except OSError:
+        pass
+    env, defs = {}, ()
+    m = re.search(r"harness=(\S+)", head)
+    if m:
+        name = m.group(1)
+    elif "spec=" in head:
+        name = "h_l2"
+    elif "Binary=1" in head:
+        name = "h_mub"
+    else:
+        name = default
+    if "fine=1" in head:
+        env["VERIF_FINE"] = "1"
+    m = re.search(r"kthr=(\d+)", head)
+    if m:
+        defs = kdefs(int(m.group(1)))
+    return build(name, extra_defs=defs), env
+
+
 def write_cfg(path, spec="SpecE", consts=None, invariants=(), constraints=(), action_constraints=(), props=(), deadlock=False, extra=""):
     with open(path, "w") as f:
         f.write("SPECIFICATION %s\n" % spec)
